@@ -199,19 +199,23 @@ def main():
     rng = run.rng
     pool = list(M.small_models(4, all_cards=True)) + list(M.special_models())[: 150 if quick else 500]
     pool += [M.random_model(rng, 8) for _ in range(100 if quick else 1500)]
+    n_plain = len(pool)
+    pool += list(star_models())
     for k, d in enumerate(pool):
         d = copy.deepcopy(d)
         names = [f['name'] for f, _, _ in d_features(d)]
-        if k % 2 == 0:
+        star = UNBOUNDED if k >= n_plain else None     # groups with the unbounded maximum '*': known finding
+        kk = 9 if star else k                          # star models: no constraints, no renaming (9 selects no variation below)
+        if kk % 2 == 0:
             d['ctcs'] = [{'name': f'c{i}', 'ast': M.random_ctc(rng, names, 2)} for i in range(rng.randint(1, 2))]
-        if k % 5 == 1 and names:
+        if kk % 5 == 1 and names:
             # plain identifiers embedding operator words / differing only in case; deeper constraints (negation inside parentheses)
             d['ctcs'] = [{'name': f'c{i}', 'ast': M.random_ctc(rng, names, 3)} for i in range(rng.randint(1, 2))]
             d = with_wordy_names(d, rng)
             names = [f['name'] for f, _, _ in d_features(d)]
-        if k % 7 == 3 and names:
+        if kk % 7 == 3 and names:
             # a name that embeds an operator word, and names with spaces / quotes-needing characters
-            d = rename(d, {names[0]: 'NOT ' + names[0] if k % 2 else names[0] + ' AND more', names[-1]: names[-1] + '-x'})
+            d = rename(d, {names[0]: 'NOT ' + names[0] if kk % 2 else names[0] + ' AND more', names[-1]: names[-1] + '-x'})
             names = [f['name'] for f, _, _ in d_features(d)]
         key = str(k)
         exp = set(d_valid_configs(d, with_ctcs=True))
@@ -219,12 +223,12 @@ def main():
         try:
             text = SPLOTWriter(None, m).transform()
             feats, got = sxfm_configs(text)
-            kn = known_splot(d)
+            kn = star or known_splot(d)
             run.case('SPLOT: no feature is missing', key, sorted(feats) == sorted(names), f'features in the export {sorted(feats)} model {sorted(names)}', d, known=kn)
             run.case('SPLOT: export denotes exactly the valid configurations', key, got == exp,
                      f'{len(got)} selections satisfy the export, {len(exp)} are valid; e.g. {sorted(map(sorted, got ^ exp))[:2]}', d, known=kn)
         except Exception as e:  # noqa: BLE001
-            run.case('SPLOT: export is produced and parses', key, False, f'{type(e).__name__}: {str(e)[:200]}', d, known=known_splot(d))
+            run.case('SPLOT: export is produced and parses', key, False, f'{type(e).__name__}: {str(e)[:200]}', d, known=star or known_splot(d))
         try:
             text = PLWriter(None, m).transform()
             pnames, got = pl_configs(text)
@@ -233,9 +237,9 @@ def main():
             # features not mentioned in any formula are free in the export: compare on the model's names
             run.case('PL: export denotes exactly the valid configurations', key, got == exp_p,
                      f'{len(got)} selections satisfy the export, {len(exp_p)} are valid; e.g. {sorted(map(sorted, got ^ exp_p))[:2]}', d,
-                     known=known_pl(d))
+                     known=star or known_pl(d))
         except Exception as e:  # noqa: BLE001
-            run.case('PL: export is produced and parses', key, False, f'{type(e).__name__}: {str(e)[:200]}', d, known=known_pl(d))
+            run.case('PL: export is produced and parses', key, False, f'{type(e).__name__}: {str(e)[:200]}', d, known=star or known_pl(d))
     run.finish('all trees up to 4 features (every split into relations, every cardinality), special families, random trees; random logical '
                'constraints over all eight operators on every second model; each export interpreted by an independent interpreter over all '
                '2^n selections')
